@@ -19,6 +19,7 @@ import (
 	"fmt"
 	"io"
 	"os"
+	"os/exec"
 	"path/filepath"
 	"regexp"
 	"sort"
@@ -1496,17 +1497,25 @@ var sticky = map[string]lib.Result{}
 
 func (e engine) Run(ci any) lib.Result {
 	c := ci.(*Case)
+	if os.Getenv(childEnv) != "" {
+		return streamProbes(c)
+	}
 	key := js(c)
+	if prev, ok := sticky[key]; ok {
+		return prev // a failure observed once on this case is the verdict on it
+	}
 	res := e.runCase(c)
 	if res.Oracle != "" {
 		sticky[key] = res
-		return res
-	}
-	if prev, ok := sticky[key]; ok {
-		return prev
 	}
 	return res
 }
+
+// set while a failing case is being minimised
+var (
+	shrinkingFrom string // the failure being minimised (for the crash marker)
+	invokeOnly    bool   // candidates are judged by the value-returning runs only
+)
 
 // a call that runs on a goroutine of the node (index >= 1) and panics, in a message the node accepts
 func (c *Case) goroutinePanic() bool {
@@ -1578,9 +1587,22 @@ func (engine) runCase(c *Case) lib.Result {
 			}
 		}
 	}
+	if res.Oracle == "" && (c.goroutinePanic() || c.peerCase().goroutinePanic()) {
+		at("stream(repeated, in a child process)")
+		if w, sig, o := isolatedStreamProbes(c); w != "" {
+			res.Oracle, res.Sig = w, sig
+			if o != nil {
+				obs = append(obs, o...)
+			}
+		}
+	}
 	for _, p := range runPlan {
 		if res.Oracle != "" {
 			break
+		}
+		if invokeOnly && p[0] != "invoke" {
+			sendable = false
+			continue
 		}
 		at(p[0] + "/" + p[1])
 		o, peer, pc := runOne(c, p[0], p[1])
@@ -1691,6 +1713,13 @@ func min(a, b int) int {
 // Shrink: drop calls, then call options, then delays, while the same oracle failure persists.
 func (engine) Shrink(ci any, stillFails func(any) bool) any {
 	c := ci.(*Case)
+	if prev, ok := sticky[js(c)]; ok {
+		shrinkingFrom = "while minimising this failure: " + prev.Oracle + " -- found on case " + js(c)
+	}
+	// a lost panic of a goroutine task may take the process down in the streamed form: its smaller
+	// variants are judged by the value-returning runs
+	invokeOnly = c.goroutinePanic() || c.peerCase().goroutinePanic()
+	defer func() { shrinkingFrom, invokeOnly = "", false }()
 	cur := *c
 	for changed := true; changed; {
 		changed = false
@@ -1728,29 +1757,158 @@ func (engine) Shrink(ci any, stillFails func(any) bool) any {
 	return &cur
 }
 
+// ---------------------------------------------------------------- streamed form, isolated
+//
+// When the failure of a goroutine task gets lost, the streamed form has no stream for that call
+// and the first read takes the whole process down (on a goroutine of the implementation, which
+// nothing can guard). The streamed form of a case with such a task is therefore first exercised
+// in a child process (this binary, --replay on the case, childEnv set): the child repeats the
+// streamed call under the case's own delays and under the schedule in which the panicking
+// executions finish last; the parent reads the child's verdict, or its crash.
+const childEnv = "VERIF_C17_STREAM_CHILD"
+const streamProbeN = 8
+
+// child side
+func streamProbes(c *Case) lib.Result {
+	res := lib.Result{}
+	var obs []RunObs
+	for _, pc := range []*Case{c, c.peerCase()} {
+		if !pc.goroutinePanic() {
+			continue
+		}
+		late := pc.panicLast()
+		for i := 0; i < streamProbeN && res.Oracle == ""; i++ {
+			host := []string{"standalone", "graph"}[i%2]
+			rcase, sched := pc, "the case's own delays"
+			if i%4 >= 2 {
+				rcase, sched = late, "panicking executions delayed so that they finish last"
+			}
+			fmt.Fprintf(os.Stderr, "C17-CHILD stream/%s repetition %d (%s) peer=%v\n", host, i, sched, pc != c)
+			o, _, _ := runOne(rcase, "stream", host)
+			if w, sig := pc.oracle(&o); w != "" {
+				o.Mode = "stream(repeated)"
+				obs = append(obs, o)
+				res.Oracle, res.Sig = fmt.Sprintf("repetition %d, schedule: %s: %s", i, sched, w), sig
+			}
+		}
+	}
+	res.Obs = obs
+	return res
+}
+
+// parent side: ("", "", nil) if the child saw nothing
+func isolatedStreamProbes(c *Case) (string, string, []RunObs) {
+	dir, err := os.MkdirTemp("", "c17-child-")
+	if err != nil {
+		return "", "", nil
+	}
+	defer os.RemoveAll(dir)
+	rf := filepath.Join(dir, "case.json")
+	b, _ := json.Marshal(map[string]any{"case": c})
+	if os.WriteFile(rf, b, 0o644) != nil {
+		return "", "", nil
+	}
+	ctx, cancel := context.WithTimeout(context.Background(), 90*time.Second)
+	defer cancel()
+	cmd := exec.CommandContext(ctx, os.Args[0], "--replay", rf, "--oracle-only", "--n", "0", "--shards", "1", "--out", dir)
+	env := []string{childEnv + "=1"}
+	for _, kv := range os.Environ() {
+		if !strings.HasPrefix(kv, "VERIF_RUNDIR=") { // the crash marker is the parent's
+			env = append(env, kv)
+		}
+	}
+	cmd.Env = env
+	var stderr strings.Builder
+	cmd.Stderr = &stderr
+	runErr := cmd.Run()
+	if ctx.Err() != nil {
+		return "", "", nil // the machine is too loaded to tell; the in-process runs follow
+	}
+	log := stderr.String()
+	if m := crashRe.FindString(log); runErr != nil && m != "" && strings.Contains(log, "github.com/cloudwego/eino") {
+		last := ""
+		for _, l := range strings.Split(log, "\n") {
+			if strings.HasPrefix(l, "C17-CHILD ") {
+				last = strings.TrimPrefix(l, "C17-CHILD ")
+			}
+		}
+		where := ""
+		if i := strings.Index(log, m); i >= 0 {
+			where = short(strings.Join(strings.Fields(log[i:]), " "))
+		}
+		return "the streamed form of this case killed the process (observed in a child process, during " + last + "): a failure of a tool call got lost and the call went on without it: " + where, "process-crash", nil
+	}
+	raw, err := os.ReadFile(filepath.Join(dir, "obs.jsonl"))
+	if err != nil {
+		return "", "", nil
+	}
+	var rec struct {
+		Obs    []RunObs `json:"obs"`
+		Oracle string   `json:"oracle"`
+		Sig    string   `json:"sig"`
+	}
+	if json.Unmarshal([]byte(strings.SplitN(string(raw), "\n", 2)[0]), &rec) != nil || rec.Oracle == "" {
+		return "", "", nil
+	}
+	return "streamed form, in a child process: " + rec.Oracle, rec.Sig, rec.Obs
+}
+
+var crashRe = regexp.MustCompile(`(?m)^(panic:|fatal error:).*$`)
+
 // crash marker: if the implementation kills the process (an unrecovered panic on a goroutine
 // the harness cannot guard, a fatal runtime error), ./check finds fatal.json in the run
 // directory and reports a violation whose replay is the marker's content. ./check blanks the
 // marker's "case" key, so the case is also given under "failing_case", and as a file of its own
-// that ./check C17 --replay accepts.
-func markRunning(c *Case) (at func(label string), done func()) {
+// that ./check C17 --replay accepts. The marker stays in place between two cases (goroutines
+// the implementation left behind may still be running) and is removed when the harness ends.
+var lastCase *Case
+
+func markerPaths() (string, string) {
 	dir := os.Getenv("VERIF_RUNDIR")
 	if dir == "" {
-		return func(string) {}, func() {}
+		return "", ""
 	}
-	p := filepath.Join(dir, "fatal.json")
-	rp := filepath.Join(dir, "fatal_case_C17.json")
-	b, _ := json.Marshal(map[string]any{"case": c, "note": "the process died while this case was running on the implementation"})
-	_ = os.WriteFile(rp, b, 0o644)
-	at = func(label string) {
-		b, _ := json.Marshal(map[string]any{"case": c, "failing_case": c, "run": label,
-			"what":          "the process died while run " + label + " of this case (key failing_case) was executing on the implementation: " + js(c),
-			"replay_file":   rp,
-			"how_to_replay": "./check C17 --replay " + rp})
-		_ = os.WriteFile(p, b, 0o644)
-	}
-	at("setup")
-	return at, func() { _ = os.Remove(p); _ = os.Remove(rp) }
+	return filepath.Join(dir, "fatal.json"), filepath.Join(dir, "fatal_case_C17.json")
 }
 
-func main() { lib.Main(engine{}) }
+func clearMarker() {
+	if p, rp := markerPaths(); p != "" {
+		_ = os.Remove(p)
+		_ = os.Remove(rp)
+	}
+}
+
+func markRunning(c *Case) (at func(label string), done func()) {
+	p, rp := markerPaths()
+	if p == "" {
+		return func(string) {}, func() {}
+	}
+	prev := lastCase
+	write := func(label, what string) {
+		b, _ := json.Marshal(map[string]any{"case": c, "failing_case": c, "run": label, "previous_case": prev,
+			"what": what + ": " + js(c), "context": shrinkingFrom,
+			"replay_file": rp, "how_to_replay": "./check C17 --replay " + rp})
+		_ = os.WriteFile(p, b, 0o644)
+	}
+	b, _ := json.Marshal(map[string]any{"case": c, "note": "the process died while (or just after) this case was running on the implementation"})
+	_ = os.WriteFile(rp, b, 0o644)
+	at = func(label string) {
+		write(label, "the process died while run "+label+" of this case (key failing_case) was executing on the implementation")
+	}
+	at("setup")
+	return at, func() {
+		lastCase = c
+		write("finished", "the process died just after the runs of this case (key failing_case) on the implementation had returned, before the next case started (a goroutine the implementation left behind)")
+	}
+}
+
+func main() {
+	defer func() {
+		if r := recover(); r != nil { // a fault of the harness itself is no observation
+			clearMarker()
+			panic(r)
+		}
+	}()
+	lib.Main(engine{})
+	clearMarker()
+}
